@@ -10,7 +10,8 @@ package crypto
 //@ uninterp Sha3Of(s mathint) Hash
 //@ uninterp SigOK(key mathint, message mathint, sig mathint) bool
 //@ uninterp DeriveOf(key mathint) mathint
-//@ uninterp PublicOf(key mathint) mathint
+//@ -- (C32) defined: the canonical encoding of ScalarDec(key)*G (T-GROUP vocabulary of /verif/govc/trusted/c32.spec); was uninterpreted
+//@ spec PublicOf(key mathint) mathint = PointEnc(ScalarDec(key))
 //@ uninterp CanonicalScalar(key mathint) bool
 
 //@ assume func Sha256Hash(data)
@@ -23,16 +24,14 @@ package crypto
 //@   requires publicKey != nil
 //@   modifies nothing
 //@   ensures result <==> SigOK(seq(*publicKey), seq(message), seq(sig))
+//@   ensures result <==> SigValid(*publicKey, message, sig) -- C34: the same predicate over the VALUES (SigValid is declared in zz_contracts_c34_verif.go)
 
 //@ assume func (k Key) DeterministicHashDerive
 //@   -- NewKeyFromSeed(sha3(k) || sha3(k)): reduces mod l, so the result is a canonical scalar
 //@   modifies nothing
 //@   ensures seq(result) == DeriveOf(seq(k)) && CanonicalScalar(seq(result))
 
-//@ assume func (k Key) Public
-//@   panics when !CanonicalScalar(seq(k))
-//@   modifies nothing
-//@   ensures seq(result) == PublicOf(seq(k))
+//@ -- (Key).Public: VERIFIED contract in zz_contracts_c32_verif.go (same panics when / modifies nothing / ensures seq(result) == PublicOf(seq(k)))
 
 //@ func (h Hash) ForNetwork
 //@   property C30
@@ -46,3 +45,4 @@ package crypto
 //@   requires privateKey != nil
 //@   modifies nothing
 //@   ensures seq(result) == SignOf(seq(*privateKey), seq(message))
+//@   ensures result == SigOf(*privateKey, message) -- C34: the same function over the VALUES (SigOf is declared in zz_contracts_c34_verif.go)
